@@ -73,11 +73,15 @@ NEAR = [("Unos", "Radians"), ("Hertz", None), ("Newtons", None)]
 def L(n): return {"k": "leaf", "n": n}
 
 
+def TABLE_DIM_OK(n):
+    return bool(model.TABLE[n].dim)
+
+
 @st.composite
 def case(draw):
     op = draw(st.sampled_from(OP_NAMES + ["trait", "trait"]))
     t1 = draw(units.tree(max_leaves=3, allow_scale=True))
-    mk = draw(st.sampled_from(["near", "near", "random", "special"]))
+    mk = draw(st.sampled_from(["near", "near", "random", "special", "samebase"]))
     c = {"op": op, "t1": t1, "mk": mk, "rep": draw(st.sampled_from(["double", "float", "int32_t", "int64_t", "long double", "uint64_t", "int16_t", "uint8_t"])),
          "rep2": draw(st.sampled_from(["double", "int32_t", "int64_t", "float"])),
          "nl": draw(st.sampled_from(units.NO_TWIN_LEAVES)), "ne": draw(st.sampled_from([(1, 1), (-1, 1), (1, 2), (2, 1), (-1, 2)])),
@@ -98,7 +102,14 @@ def prepare(c, cxx20):
     """returns dict(kind='neg'|'trait'|None, ...)"""
     op = c["op"]
     t1 = copy.deepcopy(c["t1"])
-    if c["mk"] == "special":
+    if c["mk"] == "samebase":
+        # exponent arithmetic on ONE base: X^a / X^b with a != b keeps a dimension; the mismatched partner is the unitless unit or X^(a-b) times another unit
+        pairs = [((2, 1), (1, 2)), ((3, 1), (1, 3)), ((2, 3), (3, 2)), ((1, 3), (3, 1)), ((6, 1), (3, 2)), ((1, 2), (1, 3)), ((3, 2), (1, 2)), ((4, 1), (1, 2))]
+        (an, ad), (bn, bd) = pairs[c["sp"] % len(pairs)]
+        X = L(c["nl"]) if TABLE_DIM_OK(c["nl"]) else L("Meters")
+        t1 = {"k": "div", "a": {"k": "pow", "a": copy.deepcopy(X), "n": an, "d": ad}, "b": {"k": "pow", "a": copy.deepcopy(X), "n": bn, "d": bd}}
+        t2 = L("Unos") if c["origin_side"] == 0 else {"k": "pow", "a": copy.deepcopy(X), "n": 1, "d": 1}
+    elif c["mk"] == "special":
         t1, t2 = copy.deepcopy(SPECIAL_PAIRS[c["sp"] % len(SPECIAL_PAIRS)])
     elif c["mk"] == "near":
         t2 = {"k": "mul", "a": copy.deepcopy(t1), "b": {"k": "pow", "a": L(c["nl"]), "n": c["ne"][0], "d": c["ne"][1]}}
@@ -167,6 +178,9 @@ def prepare(c, cxx20):
 
 def grid_cases():
     out = []
+    for sp in range(8):
+        for name in ("+", "==", "implicit construction", ".as(unit)", "trait", "std::common_type"):
+            out.append({"op": name, "t1": L("Meters"), "mk": "samebase", "rep": "double", "rep2": "double", "nl": ["Meters", "Seconds", "Hertz", "Feet"][sp % 4], "ne": (1, 1), "sp": sp, "origin": None, "origin_side": sp % 2})
     pairs = [(L("Meters"), L("Seconds")), (L("Celsius"), L("Meters")), (L("Meters"), L("Celsius")), (L("Unos"), L("Radians")), (L("Hertz"), {"k": "div", "a": L("Radians"), "b": L("Seconds")})]
     for name in OP_NAMES + ["trait"]:
         for j, (a, b) in enumerate(pairs):
